@@ -209,6 +209,10 @@ impl PoolImpl {
                     .remove(&block_id)
                     .unwrap_or_default()
                 {
+                    // the finalization above may have pruned the child's slot already
+                    if child_slot < self.first_unpruned_slot() {
+                        continue;
+                    }
                     if let Some(output) = self
                         .slot_state(child_slot)
                         .notify_parent_certified(child_hash)
